@@ -151,26 +151,8 @@ def implCap (implSummary : String) (a : Nat) : Nat :=
   | [_, c, _] => natOf (c.replace "!" "")
   | _ => 0
 
-def kindOf (typed direct : Bool) : KeyKind :=
-  match typed, direct with
-  | true, false => .ent
-  | false, false => .any
-  | true, true => .dir
-  | false, true => .dirAny
-
-/-- Route a handle for an op at archetype level (`a`-level, on archetype `b`) or world level.
-Typed use constructs the typed key with `from_any_unchecked` first. -/
 def routeOp (d : DS) (worldLevel typed : Bool) (h : Handle) (at_ : Option Nat) : Route :=
-  let b := at_.getD h.a
-  let direct := h.kind.isDirect
-  if typed then
-    if d.cfg.debug ∧ h.key.archId ≠ d.ids.getD b ID_RANGE then .panic "debug_assert: from_any_unchecked"
-    else
-      let hh : Handle := ⟨kindOf true direct, b, h.key⟩
-      if worldLevel then routeWorld d.cfg d.ids hh else routeArch d.ids b hh
-  else
-    let hh : Handle := ⟨kindOf false direct, b, h.key⟩
-    if worldLevel then routeWorld d.cfg d.ids hh else routeArch d.ids b hh
+  KeyUse.route d.cfg d.ids ⟨worldLevel, typed, h, at_⟩
 
 def routedArch : Route → Option Nat
   | .arch a _ => some a
@@ -200,15 +182,14 @@ def probeKey (d : DS) (w : World Val) (h : Handle) (typed : Bool) : List String 
   let ra := routeOp d false typed h none
   let rw := routeOp d true typed h none
   let idOf (r : Route) : Nat := d.ids.getD ((routedArch r).getD 0) 0
-  let dirStr (r : Route) (x : Nat × Nat) : String := fmtKey (mkKey x.1 (idOf r) x.2)
   let fs : List (String × (String × Bool)) :=
     [ ("c", boolField (w.contains d.cfg ra direct)),
       ("r", optField (w.contains d.cfg ra direct) toString),
-      ("d", optField (w.toDirect d.cfg ra direct) (dirStr ra)),
+      ("d", optField (w.toDirect d.cfg ra direct) fmtKey),
       ("v", optField (w.fetch d.cfg ra direct) (fetchStr (idOf ra))),
       ("b", optField (w.fetch d.cfg ra direct) (fetchStr (idOf ra))),
       ("wc", boolField (w.contains d.cfg rw direct)),
-      ("wd", optField (w.toDirect d.cfg rw direct) (dirStr rw)) ] ++
+      ("wd", optField (w.toDirect d.cfg rw direct) fmtKey) ] ++
     (if typed then
       [ ("wv", optField (w.fetch d.cfg rw direct) (fetchStr (idOf rw))),
         ("wb", optField (w.fetch d.cfg rw direct) (fetchStr (idOf rw))) ]
@@ -373,10 +354,12 @@ def step (d : DS) (op : List String) (implObs implSum : String) : String × DS :
       | some h, some w =>
         let r := routeOp d worldLevel typed h at_
         match w.toDirect d.cfg r h.kind.isDirect with
-        | .ok (some (i, v)) _ =>
+        | .ok (some k) _ =>
           let a' := (routedArch r).getD 0
-          let k := mkKey i (d.ids.getD a' 0) v
-          ("d " ++ fmtKey k, d.setH nv ⟨.dir, a', k⟩)
+          -- harness: at world level with a dynamic key the static archetype of the new
+          -- variable is looked up from the id of the returned handle
+          let a'' := if worldLevel ∧ ¬ typed then (selectArch d.ids k.archId).getD a' else a'
+          ("d " ++ fmtKey k, d.setH nv ⟨.dir, a'', k⟩)
         | .ok none _ => ("none", d)
         | .panic m _ => ("panic " ++ panicClass m, d)
         | .ub m => ubOut m
